@@ -30,6 +30,14 @@ type Vocab struct {
 	Attrs    map[string][]string // element -> attribute names the reader looks at
 	AllAttrs []string
 	Body     []string // children of w:body
+	// Pools: element -> string constants its reader compares values against or slices them with: one chain per
+	// function (the element's parse function and the helpers it calls), constants in source order
+	Pools map[string][]ConstSet
+	// Own: element -> constants a value READ FROM THAT ELEMENT is compared with or sliced by, wherever in the package that
+	// happens: `x.DocPartObj.DocPartGallery.Val != "..."` names docPartGallery in the selector chain of the compared value;
+	// `level(s.Properties.Tag.Val)` hands a value of w:tag to a function whose constants then belong to tag as well
+	Own    map[string][]ConstSet
+	Global []string // the same constants for every function reachable from Open / OpenFromMemory
 }
 
 var ncName = regexp.MustCompile(`^[A-Za-z_][A-Za-z0-9_.\-]*$`)
@@ -109,8 +117,62 @@ func isAttrIdent(name string) bool {
 }
 
 type fnInfo struct {
-	labels []string // element labels of the function's own switches
+	labels []string // element labels of the function's own switches / start-element tests
 	attrs  []string // attribute names read on the element the function handles
+	top    []string // parse functions called outside every element clause (the function is a wrapper of them)
+	calls  []string // every callee name (call graph by name)
+	eq     []string // string constants the function compares a value with (==, !=, case), in source order
+	sl     []string // string constants it slices a value with (strings.HasPrefix / Index / TrimPrefix ..., Sscanf), in source order
+}
+
+// ConstSet are the string constants of one function of the reader.
+type ConstSet struct {
+	Eq []string // compared for equality: meaningful as a whole value
+	Sl []string // prefixes, separators, switches: meaningful composed, in source order
+}
+
+// sliceFuncs are the functions of package strings whose literal arguments are "constants the reader slices with".
+var sliceFuncs = map[string]bool{"HasPrefix": true, "HasSuffix": true, "Contains": true, "ContainsAny": true, "Index": true, "IndexByte": true, "IndexAny": true, "IndexRune": true,
+	"LastIndex": true, "LastIndexByte": true, "TrimPrefix": true, "TrimSuffix": true, "Trim": true, "TrimLeft": true, "TrimRight": true, "Split": true, "SplitN": true, "SplitAfter": true,
+	"Cut": true, "CutPrefix": true, "CutSuffix": true, "EqualFold": true, "Count": true, "Replace": true, "ReplaceAll": true, "Sscanf": true, "Sscan": true}
+
+// litValue returns the value of a string or character literal.
+func litValue(e ast.Expr) (string, bool) {
+	bl, ok := e.(*ast.BasicLit)
+	if !ok {
+		return "", false
+	}
+	switch bl.Kind {
+	case token.STRING:
+		s, err := strconv.Unquote(bl.Value)
+		return s, err == nil
+	case token.CHAR:
+		s, err := strconv.Unquote(bl.Value)
+		return s, err == nil
+	}
+	return "", false
+}
+
+func isEndElementClause(cc *ast.CaseClause) bool {
+	for _, x := range cc.List {
+		if se, ok := x.(*ast.SelectorExpr); ok && se.Sel.Name == "EndElement" {
+			return true
+		}
+	}
+	return false
+}
+
+func calleeName(ce *ast.CallExpr) (pkg, name string) {
+	switch fn := ce.Fun.(type) {
+	case *ast.SelectorExpr:
+		if id, ok := fn.X.(*ast.Ident); ok {
+			pkg = id.Name
+		}
+		return pkg, fn.Sel.Name
+	case *ast.Ident:
+		return "", fn.Name
+	}
+	return "", ""
 }
 
 func extractVocab(dir string) *Vocab {
@@ -123,7 +185,16 @@ func extractVocab(dir string) *Vocab {
 	fns := map[string]*fnInfo{}
 	elemCalls := map[string][]string{}
 	elemAttrs := map[string][]string{}
+	transparent := map[string][]string{} // element -> functions in which its clause is empty (its children are read as the function's own)
 	elems := map[string]bool{}
+	pkgConsts := map[string]string{} // package-level string constants / variables
+	type valueUse struct {
+		idents []string // identifiers of the selector chain the value was read through (aliases expanded)
+		eq, sl string   // a constant it is compared with / sliced by
+		callee string   // or a function it is handed to
+	}
+	var uses []valueUse
+	var files []*ast.File
 	for _, e := range ents {
 		n := e.Name()
 		if !strings.HasSuffix(n, ".go") || strings.HasSuffix(n, "_test.go") {
@@ -133,99 +204,284 @@ func extractVocab(dir string) *Vocab {
 		if err != nil {
 			continue
 		}
+		files = append(files, f)
+		for _, d := range f.Decls {
+			gd, ok := d.(*ast.GenDecl)
+			if !ok || (gd.Tok != token.CONST && gd.Tok != token.VAR) {
+				continue
+			}
+			for _, sp := range gd.Specs {
+				vs, ok := sp.(*ast.ValueSpec)
+				if !ok {
+					continue
+				}
+				for i, id := range vs.Names {
+					if i < len(vs.Values) {
+						if s, ok := litValue(vs.Values[i]); ok {
+							pkgConsts[id.Name] = s
+						}
+					}
+				}
+			}
+		}
+	}
+	for _, f := range files {
 		for _, d := range f.Decls {
 			fd, ok := d.(*ast.FuncDecl)
 			if !ok || fd.Body == nil {
 				continue
 			}
-			// only the reader: functions that take or create an *xml.Decoder token loop
-			if !strings.HasPrefix(fd.Name.Name, "parse") {
-				continue
-			}
 			fi := &fnInfo{}
+			if old := fns[fd.Name.Name]; old != nil {
+				fi = old // methods of the same name on different types are merged (call graph by name)
+			}
 			fns[fd.Name.Name] = fi
-			var walk func(n ast.Node, cur []string)
-			collectCalls := func(body []ast.Stmt, labels []string) {
-				for _, st := range body {
-					ast.Inspect(st, func(n ast.Node) bool {
-						ce, ok := n.(*ast.CallExpr)
-						if !ok {
-							return true
+			isParser := strings.HasPrefix(fd.Name.Name, "parse")
+			local := map[string]string{} // function-level string constants
+			constOf := func(e ast.Expr) (string, bool) {
+				if s, ok := litValue(e); ok {
+					return s, true
+				}
+				if id, ok := e.(*ast.Ident); ok {
+					if s, ok := local[id.Name]; ok {
+						return s, true
+					}
+					if s, ok := pkgConsts[id.Name]; ok {
+						return s, true
+					}
+				}
+				return "", false
+			}
+			addEq := func(s string) {
+				if s != "" && len(s) <= 200 {
+					fi.eq = append(fi.eq, s)
+				}
+			}
+			addSl := func(s string) {
+				if s != "" && len(s) <= 200 {
+					fi.sl = append(fi.sl, s)
+				}
+			}
+			aliases := map[string][]string{} // local variable -> identifiers of the expression it was assigned from
+			var identsOf func(e ast.Expr, depth int) []string
+			identsOf = func(e ast.Expr, depth int) []string {
+				switch v := e.(type) {
+				case *ast.Ident:
+					if a, ok := aliases[v.Name]; ok && depth < 3 {
+						return append([]string{v.Name}, a...)
+					}
+					return []string{v.Name}
+				case *ast.SelectorExpr:
+					return append(identsOf(v.X, depth), v.Sel.Name)
+				case *ast.IndexExpr:
+					return identsOf(v.X, depth)
+				case *ast.StarExpr:
+					return identsOf(v.X, depth)
+				case *ast.ParenExpr:
+					return identsOf(v.X, depth)
+				case *ast.UnaryExpr:
+					return identsOf(v.X, depth)
+				case *ast.CallExpr: // strings.TrimSpace(x.Val), string(x)
+					var out []string
+					for _, a := range v.Args {
+						out = append(out, identsOf(a, depth)...)
+					}
+					return out
+				}
+				return nil
+			}
+			var visit func(n ast.Node, cur []string, inEnd bool)
+			visitList := func(list []ast.Stmt, cur []string, inEnd bool) {
+				for _, st := range list {
+					visit(st, cur, inEnd)
+				}
+			}
+			addAttr := func(cur []string, a string) {
+				if cur == nil {
+					fi.attrs = append(fi.attrs, a)
+					return
+				}
+				for _, l := range cur {
+					elemAttrs[l] = append(elemAttrs[l], a)
+				}
+			}
+			visit = func(root ast.Node, cur []string, inEnd bool) {
+				if root == nil {
+					return
+				}
+				ast.Inspect(root, func(n ast.Node) bool {
+					switch v := n.(type) {
+					case *ast.TypeSwitchStmt:
+						for _, st := range v.Body.List {
+							cc := st.(*ast.CaseClause)
+							visitList(cc.Body, cur, inEnd || isEndElementClause(cc))
 						}
-						name := ""
-						switch fn := ce.Fun.(type) {
-						case *ast.SelectorExpr:
-							name = fn.Sel.Name
-						case *ast.Ident:
-							name = fn.Name
-						}
-						if name == "getAttributeValue" && len(ce.Args) == 2 {
-							if s, ok := strLit(ce.Args[1]); ok {
-								for _, l := range labels {
-									elemAttrs[l] = append(elemAttrs[l], s)
+						return false
+					case *ast.DeclStmt:
+						if gd, ok := v.Decl.(*ast.GenDecl); ok && (gd.Tok == token.CONST || gd.Tok == token.VAR) {
+							for _, sp := range gd.Specs {
+								if vs, ok := sp.(*ast.ValueSpec); ok {
+									for i, id := range vs.Names {
+										if i < len(vs.Values) {
+											if s, ok := litValue(vs.Values[i]); ok {
+												local[id.Name] = s
+											}
+										}
+									}
 								}
 							}
 						}
-						if strings.HasPrefix(name, "parse") && name != fd.Name.Name {
-							for _, l := range labels {
-								elemCalls[l] = append(elemCalls[l], name)
-							}
-						}
-						return true
-					})
-				}
-			}
-			walk = func(n ast.Node, cur []string) {
-				ast.Inspect(n, func(n ast.Node) bool {
-					switch v := n.(type) {
 					case *ast.SwitchStmt:
 						if v.Tag == nil {
-							// switch { case t.Name.Local == "body": ... }
-							return true
+							return true // switch { case t.Name.Local == "body": ... }: the comparisons are seen as binary expressions
 						}
-						root, ok := localSelector(v.Tag)
-						if !ok {
-							return true
+						tagRoot, isLocal := localSelector(v.Tag)
+						if isLocal && !isParser {
+							return true // an element switch outside the reader (writer, template engine): not vocabulary
 						}
 						for _, st := range v.Body.List {
 							cc := st.(*ast.CaseClause)
 							var labels []string
 							for _, x := range cc.List {
-								if s, ok := strLit(x); ok && ncName.MatchString(s) {
-									labels = append(labels, s)
+								if s, ok := constOf(x); ok {
+									if !isLocal {
+										addEq(s) // value switch: the labels are constants the input is compared against
+									} else if ncName.MatchString(s) {
+										labels = append(labels, s)
+									}
 								}
 							}
-							if len(labels) == 0 {
-								continue
+							switch {
+							case !isLocal || len(labels) == 0:
+								visitList(cc.Body, cur, inEnd)
+							case isAttrIdent(tagRoot):
+								for _, l := range labels {
+									addAttr(cur, l)
+								}
+								visitList(cc.Body, cur, inEnd)
+							case inEnd:
+								for _, l := range labels {
+									elems[l] = true
+								}
+								visitList(cc.Body, cur, inEnd)
+							default:
+								for _, l := range labels {
+									elems[l] = true
+								}
+								fi.labels = append(fi.labels, labels...)
+								if len(cc.Body) == 0 {
+									for _, l := range labels {
+										transparent[l] = append(transparent[l], fd.Name.Name)
+									}
+								}
+								visitList(cc.Body, labels, inEnd)
 							}
-							if isAttrIdent(root) {
-								fi.attrs = append(fi.attrs, labels...)
-								continue
-							}
-							for _, l := range labels {
-								elems[l] = true
-							}
-							fi.labels = append(fi.labels, labels...)
-							collectCalls(cc.Body, labels)
 						}
-						return true
+						return false
+					case *ast.IfStmt:
+						if inEnd || !isParser {
+							return true
+						}
+						// if t.Name.Local == "docPart" { ... } on a start element
+						if be, ok := v.Cond.(*ast.BinaryExpr); ok && be.Op == token.EQL {
+							if r, ok := localSelector(be.X); ok && !isAttrIdent(r) {
+								if s, ok := strLit(be.Y); ok && ncName.MatchString(s) {
+									elems[s] = true
+									fi.labels = append(fi.labels, s)
+									visitList(v.Body.List, []string{s}, inEnd)
+									if v.Else != nil {
+										visitList([]ast.Stmt{v.Else}, cur, inEnd)
+									}
+									return false
+								}
+							}
+						}
+					case *ast.AssignStmt:
+						if len(v.Lhs) == len(v.Rhs) {
+							for i, l := range v.Lhs {
+								if id, ok := l.(*ast.Ident); ok && id.Name != "_" {
+									if ids := identsOf(v.Rhs[i], 0); len(ids) > 0 {
+										aliases[id.Name] = ids
+									}
+								}
+							}
+						}
 					case *ast.BinaryExpr:
-						// x.Name.Local == "document"
-						if v.Op == token.EQL {
-							if root, ok := localSelector(v.X); ok && !isAttrIdent(root) {
-								if s, ok := strLit(v.Y); ok && ncName.MatchString(s) {
+						if v.Op == token.EQL || v.Op == token.NEQ {
+							if s, ok := constOf(v.Y); ok {
+								uses = append(uses, valueUse{idents: identsOf(v.X, 0), eq: s})
+							} else if s, ok := constOf(v.X); ok {
+								uses = append(uses, valueUse{idents: identsOf(v.Y, 0), eq: s})
+							}
+							if r, ok := localSelector(v.X); ok {
+								// x.Name.Local == "document"
+								if s, ok := strLit(v.Y); ok && ncName.MatchString(s) && !isAttrIdent(r) && v.Op == token.EQL && isParser {
 									elems[s] = true
 								}
+							} else if s, ok := constOf(v.Y); ok {
+								addEq(s)
+							} else if s, ok := constOf(v.X); ok {
+								addEq(s)
 							}
 						}
 					case *ast.CallExpr:
-						// getAttributeValue(startElement.Attr, "x") outside an element clause: attribute of the function's element
-						if id, ok := v.Fun.(*ast.Ident); ok && id.Name == "getAttributeValue" && len(v.Args) == 2 {
-							if se, ok := v.Args[0].(*ast.SelectorExpr); ok {
-								if r, ok := se.X.(*ast.Ident); ok && strings.HasPrefix(r.Name, "start") {
-									if s, ok := strLit(v.Args[1]); ok {
-										fi.attrs = append(fi.attrs, s)
+						pkg, name := calleeName(v)
+						if name == "" {
+							return true
+						}
+						if pkg == "" || (pkg != "strings" && pkg != "fmt" && pkg != "strconv" && pkg != "xml" && pkg != "bytes") {
+							fi.calls = append(fi.calls, name)
+						}
+						if name == "getAttributeValue" && len(v.Args) == 2 {
+							if s, ok := strLit(v.Args[1]); ok {
+								ownElement := false
+								if se, ok := v.Args[0].(*ast.SelectorExpr); ok {
+									if r, ok := se.X.(*ast.Ident); ok && strings.HasPrefix(r.Name, "start") {
+										ownElement = true // getAttributeValue(startElement.Attr, "x"): attribute of the function's element
 									}
+								}
+								if ownElement && cur == nil {
+									fi.attrs = append(fi.attrs, s)
+								} else if cur != nil {
+									addAttr(cur, s)
+								}
+							}
+						}
+						if isParser && strings.HasPrefix(name, "parse") && name != fd.Name.Name {
+							if cur != nil {
+								for _, l := range cur {
+									elemCalls[l] = append(elemCalls[l], name)
+								}
+							} else {
+								fi.top = append(fi.top, name)
+							}
+						}
+						if pkg != "strings" && pkg != "bytes" && pkg != "fmt" && pkg != "strconv" && name != "getAttributeValue" {
+							for _, a := range v.Args {
+								if ids := identsOf(a, 0); len(ids) > 1 {
+									uses = append(uses, valueUse{idents: ids, callee: name})
+								}
+							}
+						}
+						if (pkg == "strings" || pkg == "bytes" || pkg == "fmt") && sliceFuncs[name] && len(v.Args) > 1 {
+							for _, a := range v.Args[1:] {
+								if s, ok := constOf(a); ok {
+									if i := strings.IndexByte(s, '%'); i >= 0 && name == "Sscanf" {
+										s = s[:i]
+									}
+									if s != "" {
+										uses = append(uses, valueUse{idents: identsOf(v.Args[0], 0), sl: s})
+									}
+								}
+							}
+							for _, a := range v.Args[1:] {
+								if s, ok := constOf(a); ok {
+									if name == "Sscanf" {
+										if i := strings.IndexByte(s, '%'); i >= 0 {
+											s = s[:i]
+										}
+									}
+									addSl(s)
 								}
 							}
 						}
@@ -233,13 +489,30 @@ func extractVocab(dir string) *Vocab {
 					return true
 				})
 			}
-			walk(fd.Body, nil)
+			visit(fd.Body, nil, false)
 		}
 	}
 	if len(elems) < 10 {
 		return nil
 	}
-	v := &Vocab{Source: "ast:" + pdir, Children: map[string][]string{}, Attrs: map[string][]string{}}
+	// labels / attributes of a parse function, through the functions it merely wraps
+	var labelsOf func(name string, seen map[string]bool) ([]string, []string)
+	labelsOf = func(name string, seen map[string]bool) ([]string, []string) {
+		fi := fns[name]
+		if fi == nil || seen[name] {
+			return nil, nil
+		}
+		seen[name] = true
+		ls := append([]string{}, fi.labels...)
+		as := append([]string{}, fi.attrs...)
+		for _, t := range fi.top {
+			l2, a2 := labelsOf(t, seen)
+			ls = append(ls, l2...)
+			as = append(as, a2...)
+		}
+		return ls, as
+	}
+	v := &Vocab{Source: "ast:" + pdir, Children: map[string][]string{}, Attrs: map[string][]string{}, Pools: map[string][]ConstSet{}}
 	for e := range elems {
 		v.Elems = append(v.Elems, e)
 	}
@@ -252,13 +525,18 @@ func extractVocab(dir string) *Vocab {
 			at[a] = true
 		}
 		for _, c := range elemCalls[e] {
-			if fi := fns[c]; fi != nil {
-				for _, l := range fi.labels {
-					ch[l] = true
-				}
-				for _, a := range fi.attrs {
-					at[a] = true
-				}
+			ls, as := labelsOf(c, map[string]bool{})
+			for _, l := range ls {
+				ch[l] = true
+			}
+			for _, a := range as {
+				at[a] = true
+			}
+		}
+		for _, fn := range transparent[e] {
+			ls, _ := labelsOf(fn, map[string]bool{})
+			for _, l := range ls {
+				ch[l] = true
 			}
 		}
 		for c := range ch {
@@ -275,24 +553,130 @@ func extractVocab(dir string) *Vocab {
 			}
 		}
 		sort.Strings(v.Attrs[e])
+		// constants of the element's reader: its parse function(s) and the helpers they call (not other parse functions)
+		v.Pools[e] = poolOf(fns, elemCalls[e])
+	}
+	// values read from an element: match the identifiers of the chain against the element names (DocPartGallery -> docPartGallery)
+	v.Own = map[string][]ConstSet{}
+	ownEq := map[string][]string{}
+	ownSl := map[string][]string{}
+	ownCallee := map[string][]string{}
+	for _, u := range uses {
+		for _, id := range u.idents {
+			if id == "" {
+				continue
+			}
+			e := strings.ToLower(id[:1]) + id[1:]
+			if !elems[e] || len(e) < 3 {
+				continue
+			}
+			switch {
+			case u.eq != "":
+				ownEq[e] = append(ownEq[e], u.eq)
+			case u.sl != "":
+				ownSl[e] = append(ownSl[e], u.sl)
+			case u.callee != "" && !strings.HasPrefix(u.callee, "parse"):
+				ownCallee[e] = append(ownCallee[e], u.callee)
+			}
+		}
+	}
+	for _, e := range v.Elems {
+		if len(ownEq[e])+len(ownSl[e]) > 0 {
+			v.Own[e] = append(v.Own[e], ConstSet{Eq: dedup(ownEq[e]), Sl: dedup(ownSl[e])})
+		}
+		if len(ownCallee[e]) > 0 {
+			v.Own[e] = append(v.Own[e], reach(fns, ownCallee[e], 2, true)...)
+		}
 	}
 	for a := range allA {
 		v.AllAttrs = append(v.AllAttrs, a)
 	}
 	sort.Strings(v.AllAttrs)
-	if fi := fns["parseBodySubElement"]; fi != nil && len(fi.labels) > 0 {
-		v.Body = append([]string{}, fi.labels...)
+	if ls, _ := labelsOf("parseBodySubElement", map[string]bool{}); len(ls) > 0 {
+		v.Body = ls
 	} else {
 		v.Body = []string{"p", "tbl", "sectPr"}
 	}
 	v.Children["body"] = v.Body
 	v.Children["document"] = []string{"body"}
+	// every constant of a function reachable from the open entry points
+	seenC := map[string]bool{}
+	for _, cs := range reach(fns, []string{"Open", "OpenFromMemory", "parseDocument"}, 12, false) {
+		for _, c := range append(append([]string{}, cs.Eq...), cs.Sl...) {
+			if !seenC[c] {
+				seenC[c] = true
+				v.Global = append(v.Global, c)
+			}
+		}
+	}
 	for _, must := range []string{"document", "body", "p", "r", "t", "tbl", "tr", "tc"} {
 		if !elems[must] {
 			return nil // the source does not look like the reader we know: use the built-in grammar
 		}
 	}
+	if len(v.Children["p"]) == 0 || len(v.Children["r"]) == 0 {
+		return nil
+	}
 	return v
+}
+
+// reach returns the constant chains (one per function, source order) of the functions reachable from roots by name.
+// helpersOnly: edges into other parse functions are not followed (they belong to other elements).
+func reach(fns map[string]*fnInfo, roots []string, depth int, helpersOnly bool) []ConstSet {
+	var out []ConstSet
+	seen := map[string]bool{}
+	type item struct {
+		name string
+		d    int
+	}
+	var q []item
+	for _, r := range roots {
+		q = append(q, item{r, 0})
+	}
+	for len(q) > 0 {
+		it := q[0]
+		q = q[1:]
+		if seen[it.name] {
+			continue
+		}
+		seen[it.name] = true
+		fi := fns[it.name]
+		if fi == nil {
+			continue
+		}
+		if len(fi.eq)+len(fi.sl) > 0 {
+			out = append(out, ConstSet{Eq: fi.eq, Sl: fi.sl})
+		}
+		if it.d >= depth {
+			continue
+		}
+		for _, c := range fi.calls {
+			if helpersOnly && strings.HasPrefix(c, "parse") {
+				continue
+			}
+			q = append(q, item{c, it.d + 1})
+		}
+	}
+	return out
+}
+
+func dedup(in []string) []string {
+	seen := map[string]bool{}
+	var out []string
+	for _, s := range in {
+		if !seen[s] {
+			seen[s] = true
+			out = append(out, s)
+		}
+	}
+	return out
+}
+
+func poolOf(fns map[string]*fnInfo, parsers []string) []ConstSet {
+	if len(parsers) == 0 {
+		return nil
+	}
+	return reach(fns, parsers, 3, true)
 }
 
 // builtinVocab is the grammar of the reader as of the pinned tree (used only if the source is unreadable).
